@@ -2,10 +2,10 @@ package rules
 
 import (
 	"fmt"
-	"os"
 	"go/ast"
 	"go/token"
 	"go/types"
+	"os"
 	"strings"
 
 	"golang.org/x/tools/go/packages"
@@ -391,6 +391,7 @@ func R12RemoveIdempotent(c *Ctx) {
 			}
 			v := ret.Results[len(ret.Results)-1]
 			seen := map[ssa.Value]bool{}
+			depthOf := map[*ssa.Function]int{}
 			var walk func(x ssa.Value)
 			walk = func(x ssa.Value) {
 				if seen[x] || bad != "" {
@@ -407,9 +408,30 @@ func R12RemoveIdempotent(c *Ctx) {
 					if call, ok := y.Tuple.(*ssa.Call); ok && strings.Contains(CalleeName(call), "database/sql.") {
 						return
 					}
+					if call, ok := y.Tuple.(*ssa.Call); ok {
+						if h := call.Call.StaticCallee(); h != nil && h.Blocks != nil && FuncPkgPathOf(h) == PkgDB && depthOf[h] < 3 {
+							// a package helper: its own error results
+							depthOf[h]++
+							for _, hb := range h.Blocks {
+								if hr, ok := hb.Instrs[len(hb.Instrs)-1].(*ssa.Return); ok && y.Index < len(hr.Results) {
+									walk(hr.Results[y.Index])
+								}
+							}
+							return
+						}
+					}
 					bad, at = "an error taken from "+DescribeValue(y.Tuple), ret.Pos()
 				case *ssa.Call:
 					if strings.Contains(CalleeName(y), "database/sql.") {
+						return
+					}
+					if h := y.Call.StaticCallee(); h != nil && h.Blocks != nil && FuncPkgPathOf(h) == PkgDB && depthOf[h] < 3 {
+						depthOf[h]++
+						for _, hb := range h.Blocks {
+							if hr, ok := hb.Instrs[len(hb.Instrs)-1].(*ssa.Return); ok && len(hr.Results) > 0 {
+								walk(hr.Results[len(hr.Results)-1])
+							}
+						}
 						return
 					}
 					bad, at = "an error made by "+CalleeName(y), ret.Pos()
